@@ -324,3 +324,18 @@ claim("C46", FSJ,
       "/proc/self/fd), unix_to_sbpath, windows_to_sbpath.",
       "TLC; POSIX host; the known finding (string helpers ignore links) is decided by TLC on the same host without its links",
       "DESIGN.md 5/C46", "SandboxFS")
+
+OSJ = ("TLA+ reference definitions of the helper functions (OsHelpers.tla over BV.tla: 64-bit modular arithmetic on bit vectors, C string "
+       "semantics on a byte region, table-less CRC-32) used as the deciding oracle: every recorded stub call (arguments, memory before "
+       "and after, result registers, stack discipline) is judged by TLC")
+
+claim("C47", OSJ,
+      "OsHelpers.tla states 35 helpers (RtlLargeInteger Add / Subtract / ShiftRight, RtlEnlargedUnsignedMultiply, "
+      "RtlExtendedIntegerMultiply, RtlCompareMemory, RtlComputeCrc32, lstrlen / lstrcpy / lstrcat / lstrcpyn / lstrcmp(i) A and W, "
+      "msvcrt wcs* / mem* / strrchr, linux_stdlib strlen / strcpy / strcmp / strncmp / memcpy / memset / isprint). The stubs are called "
+      "on python-backend jitters (x86-32 stdcall / cdecl, x86-64 System V) with edge and random integers, strings that are equal / "
+      "prefixes / differ by case, counts 0..16; TLC compares result registers (value, sign or returned pointer) and the whole buffer "
+      "region after the call.",
+      "TLC; one region of 96 bytes, non-overlapping source / destination; ASCII strings strict, strings with bytes >= 0x80 are the "
+      "recorded known finding (cp1252 round trip)",
+      "DESIGN.md 5/C47", "OsHelpers")
